@@ -126,6 +126,17 @@ CLAIMED.update({
              'cif_loop_get_category by assumed contract.', ref='5/C05'),
 })
 
+CLAIMED.update({
+    'C12': dict(
+        text='Partial and bounded (lexical defect classes only): scan_to_eol, scan_to_ws and scan_unquoted - the real code including get_more_chars - are run on every input of up to '
+             '2 (quick) / 3 (thorough) code units, every 16-bit value per unit, CIF 1.1 and 2.0 tables, every accept / reject answer, and their reports are compared with a '
+             'specification of the character rules: disallowed character => CIF_DISALLOWED_CHAR at that unit, unpaired surrogate => CIF_INVALID_CHAR and replaced, noncharacter '
+             'pair => two-unit report, nothing reported that the text does not justify; a fourth job decides the missing-whitespace rule for brackets after data_ / save_ headers. '
+             'The unbounded contract for these loops is written but cbmc cannot discharge it (parked/README.md). Defect classes above the lexical level are not decided.',
+        note='Bounded stand-in, never counted as proved; trusted: CBMC, the character-rule specification in the harness, reference bodies of two ICU primitives.', ref='5/C12', category='other',
+        technique='CBMC bounded check of the real scanner functions against an executable specification of the CIF character rules (complete unwinding, all unit values)'),
+})
+
 NOT_APPLICABLE = {
     'C04': 'The abstract state (tables, keys, cascades, triggers) and every transition are SQL text interpreted by SQLite at run time; a C-level '
            'contract can only say that the SQL string was handed to SQLite. A relational contract per statement would be a hand-written model '
